@@ -129,6 +129,7 @@ type Explorer struct {
 	th      theory
 	thSet   bool
 	prefer  string // preferred solver key for this path ("" = by theory)
+	preferAssert string // solver key for assertion queries only ("" = prefer)
 	steps   int64
 	depth   int
 	covers  []string
@@ -145,9 +146,157 @@ type Explorer struct {
 	writes  []string
 	lastPos token.Pos
 	lastFn  *ssa.Function
+	pcIdx    map[uint64][]*Term // literals of pc by structural hash (lazy)
+	pcIdxLen int
+	noFast   bool
+	ufApps    []*Term // applications of abstracted functions seen in pc / queries
+	ufSeen    map[*Term]bool
+	ufScanned int
+	lemmaSeen map[uint64]bool
+	ivl       *lowerer // interval analysis over the path condition (no solver)
+	ivlSynced int
+}
+
+// intervalDecides tries to settle a branch condition by interval arithmetic over
+// the bounds the path condition puts on variables (the analysis of the INT
+// lowering).  It is a function of the path condition only, so it is stable under
+// re-execution; a settled condition needs neither a solver query nor a decision.
+func (ex *Explorer) intervalDecides(c *Term) (bool, bool) {
+	if ex.ivl == nil || len(ex.pc) < ex.ivlSynced {
+		ex.ivl = &lowerer{bounds: map[*Term]*ival{}, ivmemo: map[*Term]*ival{}}
+		ex.ivlSynced = 0
+	}
+	if ex.ivlSynced < len(ex.pc) {
+		for ; ex.ivlSynced < len(ex.pc); ex.ivlSynced++ {
+			ex.ivl.learn(ex.pc[ex.ivlSynced], true)
+		}
+		ex.ivl.ivmemo = map[*Term]*ival{}
+	}
+	return ex.ivDecide(c, 0)
+}
+
+func (ex *Explorer) ivDecide(c *Term, depth int) (bool, bool) {
+	if depth > 8 {
+		return false, false
+	}
+	switch c.op {
+	case OpConst:
+		return c.c != 0, true
+	case OpNot:
+		v, ok := ex.ivDecide(c.args[0], depth+1)
+		return !v, ok
+	case OpBAnd:
+		a, oka := ex.ivDecide(c.args[0], depth+1)
+		b, okb := ex.ivDecide(c.args[1], depth+1)
+		if (oka && !a) || (okb && !b) {
+			return false, true
+		}
+		return true, oka && okb
+	case OpBOr:
+		a, oka := ex.ivDecide(c.args[0], depth+1)
+		b, okb := ex.ivDecide(c.args[1], depth+1)
+		if (oka && a) || (okb && b) {
+			return true, true
+		}
+		return false, oka && okb
+	case OpEq, OpLt, OpLe:
+		x, y := c.args[0], c.args[1]
+		if x.w == 0 || y.w == 0 || x.signed != y.signed {
+			return false, false
+		}
+		a, b := ex.ivl.interval(x), ex.ivl.interval(y)
+		switch c.op {
+		case OpEq:
+			if a.hi.Cmp(b.lo) < 0 || b.hi.Cmp(a.lo) < 0 {
+				return false, true
+			}
+			if a.lo.Cmp(a.hi) == 0 && b.lo.Cmp(b.hi) == 0 && a.lo.Cmp(b.lo) == 0 {
+				return true, true
+			}
+		case OpLt:
+			if a.hi.Cmp(b.lo) < 0 {
+				return true, true
+			}
+			if a.lo.Cmp(b.hi) >= 0 {
+				return false, true
+			}
+		case OpLe:
+			if a.hi.Cmp(b.lo) <= 0 {
+				return true, true
+			}
+			if a.lo.Cmp(b.hi) > 0 {
+				return false, true
+			}
+		}
+	}
+	return false, false
+}
+
+// scanUF collects the OpUF applications of the path condition and of extra.
+func (ex *Explorer) scanUF(extra *Term) {
+	if ex.ufSeen == nil {
+		ex.ufSeen = map[*Term]bool{}
+	}
+	var walk func(t *Term)
+	walk = func(t *Term) {
+		if ex.ufSeen[t] {
+			return
+		}
+		ex.ufSeen[t] = true
+		for _, a := range t.args {
+			walk(a)
+		}
+		if t.op == OpUF {
+			ex.ufApps = append(ex.ufApps, t)
+		}
+	}
+	if len(ex.pc) < ex.ufScanned {
+		ex.ufScanned = 0
+	}
+	for ; ex.ufScanned < len(ex.pc); ex.ufScanned++ {
+		walk(ex.pc[ex.ufScanned])
+	}
+	if extra != nil {
+		walk(extra)
+	}
+}
+
+// termEqual is structural equality of terms.
+func termEqual(a, b *Term) bool {
+	if a == b {
+		return true
+	}
+	if a.op != b.op || a.w != b.w || a.signed != b.signed || a.c != b.c || a.name != b.name || len(a.args) != len(b.args) || a.hash() != b.hash() {
+		return false
+	}
+	for i := range a.args {
+		if !termEqual(a.args[i], b.args[i]) {
+			return false
+		}
+	}
+	return true
+}
+
+// pcHas reports whether c is literally one of the path-condition conjuncts.
+// It depends only on the path condition, hence is stable under re-execution.
+func (ex *Explorer) pcHas(c *Term) bool {
+	if ex.pcIdx == nil || len(ex.pc) < ex.pcIdxLen {
+		ex.pcIdx, ex.pcIdxLen = map[uint64][]*Term{}, 0
+	}
+	for ; ex.pcIdxLen < len(ex.pc); ex.pcIdxLen++ {
+		t := ex.pc[ex.pcIdxLen]
+		ex.pcIdx[t.hash()] = append(ex.pcIdx[t.hash()], t)
+	}
+	for _, t := range ex.pcIdx[c.hash()] {
+		if termEqual(t, c) {
+			return true
+		}
+	}
+	return false
 }
 
 type worker struct {
+	onStart func(*Explorer)
 	id      int
 	i       *interpreter
 	solvers map[string]*solverProc
@@ -196,6 +345,14 @@ func (ex *Explorer) primaryKey() string {
 	return "z3-bv"
 }
 
+// assertKey is the solver asked first for assertion (validity) queries.
+func (ex *Explorer) assertKey() string {
+	if ex.preferAssert != "" {
+		return ex.preferAssert
+	}
+	return ex.primaryKey()
+}
+
 // fallback solver order for assertion queries that come back unknown.
 func (ex *Explorer) fallbackKeys() []string {
 	var ks []string
@@ -206,7 +363,7 @@ func (ex *Explorer) fallbackKeys() []string {
 	}
 	var out []string
 	for _, k := range ks {
-		if k != ex.primaryKey() {
+		if k != ex.assertKey() {
 			out = append(out, k)
 		}
 	}
@@ -226,6 +383,61 @@ func (ex *Explorer) query(key string, toMs int, extra *Term, wantModel bool) (sa
 	}
 	t0 := time.Now()
 	r, m, why := p.check(ex.pc, extra, ex.vars, wantModel)
+	// Uninterpreted-function refinement: a model in which an abstracted function
+	// (FNV) takes a value its concrete meaning excludes is spurious; the function's
+	// true value at the model's arguments is added as a lemma and the query repeated.
+	for iter := 0; r == resSat && m != nil && iter < 12; iter++ {
+		ex.scanUF(extra)
+		if len(ex.ufApps) == 0 {
+			break
+		}
+		memo := map[*Term]uint64{}
+		ok := extra == nil || evalTerm(extra, m, memo) != 0
+		for _, c := range ex.pc {
+			if !ok {
+				break
+			}
+			if evalTerm(c, m, memo) == 0 {
+				ok = false
+			}
+		}
+		if ok {
+			break
+		}
+		added := 0
+		for _, u := range ex.ufApps {
+			var conj *Term
+			for _, a := range u.args {
+				if a.op == OpConst {
+					continue
+				}
+				e := mkEq(a, mkConst(evalTerm(a, m, memo), a.w, a.signed))
+				if conj == nil {
+					conj = e
+				} else {
+					conj = mkAnd(conj, e)
+				}
+			}
+			if conj == nil {
+				continue
+			}
+			lemma := mkOr(mkNot(conj), mkEq(u, mkConst(evalTerm(u, m, memo), u.w, u.signed)))
+			if ex.lemmaSeen == nil {
+				ex.lemmaSeen = map[uint64]bool{}
+			}
+			if ex.lemmaSeen[lemma.hash()] {
+				continue
+			}
+			ex.lemmaSeen[lemma.hash()] = true
+			ex.pc = append(ex.pc, lemma)
+			added++
+		}
+		if added == 0 {
+			break
+		}
+		ex.w.res.Bounds["uf-refinement-lemmas"] += added
+		r, m, why = p.check(ex.pc, extra, ex.vars, wantModel)
+	}
 	ex.w.res.SolverWall += time.Since(t0)
 	ex.count(p.spec.name + ":" + r.String())
 	if r == resUnknown && debugPanics {
@@ -294,6 +506,20 @@ func (ex *Explorer) decide(c *Term) bool {
 	}
 	if !c.isBool() {
 		panic(engineError{"decide on non-Boolean term"})
+	}
+	// a condition already decided on this path needs neither a query nor a decision
+	// (not for concretization candidates: their K is read from the recorded decision)
+	if !ex.noFast {
+		if ex.pcHas(c) {
+			return true
+		}
+		if ex.pcHas(mkNot(c)) {
+			return false
+		}
+		if v, ok := ex.intervalDecides(c); ok {
+			ex.w.res.Queries["interval-decided"]++
+			return v
+		}
 	}
 	i := len(ex.taken)
 	if i < len(ex.prefix) {
@@ -545,8 +771,8 @@ func (ex *Explorer) assert(label string, cond value) {
 		if debugPanics {
 			fmt.Fprintf(os.Stderr, "ASSERT %s (pc=%d vars=%d)\n", label, len(ex.pc), len(ex.vars))
 		}
-		r, m, why := ex.query(ex.primaryKey(), ex.cfg.QueryMs, nc, true)
-		used := ex.primaryKey()
+		r, m, why := ex.query(ex.assertKey(), ex.cfg.QueryMs, nc, true)
+		used := ex.assertKey()
 		if r == resUnknown {
 			for _, k := range ex.fallbackKeys() {
 				r, m, why = ex.query(k, ex.cfg.QueryMs, nc, true)
@@ -620,6 +846,9 @@ func (w *worker) runPath(fn *ssa.Function, item workItem) (newWork []workItem) {
 		ex.model, ex.modelOK = map[string]uint64{}, true
 	}
 	w.i.ex = ex
+	if w.onStart != nil {
+		w.onStart(ex)
+	}
 	for _, p := range w.solvers {
 		p.newPath()
 	}
@@ -769,6 +998,38 @@ func RunHarness(prog *ssa.Program, fn *ssa.Function, cfg *Config, sizes types.Si
 	}
 	var wg sync.WaitGroup
 	results := make([]*HarnessResult, nw)
+	curEx := make([]*Explorer, nw)
+	curStart := make([]time.Time, nw)
+	if os.Getenv("VERIF_PROGRESS") != "" {
+		done := make(chan struct{})
+		defer close(done)
+		go func() {
+			tk := time.NewTicker(20 * time.Second)
+			defer tk.Stop()
+			for {
+				select {
+				case <-done:
+					return
+				case <-tk.C:
+					mu.Lock()
+					fmt.Fprintf(os.Stderr, "PROGRESS %s: started=%d queue=%d active=%d t=%.0fs\n", fn.Name(), started, len(queue), active, time.Since(t0).Seconds())
+					for wi, ex := range curEx {
+						if ex == nil {
+							continue
+						}
+						var sb strings.Builder
+						for _, nd := range ex.nondets {
+							if nd.Type == "choice" {
+								fmt.Fprintf(&sb, "%s=%s ", nd.Label, nd.Value)
+							}
+						}
+						fmt.Fprintf(os.Stderr, "   w%d %.0fs dec=%d pc=%d %s\n", wi, time.Since(curStart[wi]).Seconds(), len(ex.taken), len(ex.pc), sb.String())
+					}
+					mu.Unlock()
+				}
+			}
+		}()
+	}
 	for wi := 0; wi < nw; wi++ {
 		wg.Add(1)
 		go func(wi int) {
@@ -806,7 +1067,10 @@ func RunHarness(prog *ssa.Program, fn *ssa.Function, cfg *Config, sizes types.Si
 					w = newWorker(wi, prog, cfg, sizes, fn.String())
 					results[wi] = w.res
 				}
+				curStart[wi] = time.Now()
+				w.onStart = func(ex *Explorer) { curEx[wi] = ex }
 				nw := w.runPath(fn, item)
+				curEx[wi] = nil
 				mu.Lock()
 				queue = append(queue, nw...)
 				active--
